@@ -90,10 +90,16 @@ def check(ctx):
     # ---- stream counter
     h = ctx.body(SW, r"stream::ActiveStreamCounter::has_no_active_streams$")
     r0 = [render(h.site_expr(mir.Site(h, x[1], x[2]))) for x in h.defs[0]]
-    ctx.ob("counter", "has_no_active_streams <=> strong_count == 1", r0 == ["Eq(libp2p_swarm::stream::ActiveStreamCounter::num_alive_streams(self), 1)"], "%s:%d" % (h.file, h.line), str(r0))
-    n = ctx.body(SW, r"stream::ActiveStreamCounter::num_alive_streams$")
-    r0 = [render(n.site_expr(mir.Site(n, x[1], x[2]))) for x in n.defs[0]]
-    ctx.ob("counter", "num_alive_streams = Arc::strong_count", r0 == ["std::sync::Arc::strong_count(self.0)"], "%s:%d" % (n.file, n.line), str(r0))
+    # either directly `Arc::strong_count(self.0) == 1` or through a crate-local accessor whose body is that count
+    direct = re.match(r"^Eq\(std::sync::Arc::strong_count\(\w+\.0\), 1\)$", r0[0]) is not None if len(r0) == 1 else False
+    m = re.match(r"^Eq\((libp2p_swarm::stream::ActiveStreamCounter::\w+)\(\w+\), 1\)$", r0[0]) if len(r0) == 1 else None
+    via = False
+    if m:
+        n = ctx.body(SW, "^" + re.escape(m.group(1)) + "$")
+        rn = [render(n.site_expr(mir.Site(n, x[1], x[2]))) for x in n.defs[0]]
+        via = len(rn) == 1 and re.match(r"^std::sync::Arc::strong_count\(\w+\.0\)$", rn[0]) is not None
+        ctx.ob("counter", "the stream count is Arc::strong_count of the shared counter", via, "%s:%d" % (n.file, n.line), str(rn))
+    ctx.ob("counter", "has_no_active_streams <=> strong_count == 1", direct or via, "%s:%d" % (h.file, h.line), str(r0))
     ig = ctx.body(SW, r"stream::Stream::ignore_for_keep_alive$")
     tk = ig.call_sites(r"Option::take$")
     ctx.ob("counter", "ignore_for_keep_alive drops the stream's counter clone", len(tk) == 1 and render(ig.site_expr(tk[0])) == "std::option::Option::take(self.counter)",
